@@ -2,5 +2,6 @@ import Props.C01
 import Props.C02
 import Props.C06
 import Props.C11
+import Props.C12
 import Props.C14
 import Props.C15
